@@ -203,6 +203,6 @@ func joinLongLived(im *Impl, cf *CaseFile, res *longResult, wg *sync.WaitGroup) 
 		cf.Add(cs.term, cs.label)
 	}
 	im.Count(res.label, true)
-	im.Hist("long-lived-stream")
-	im.Extra["wall_long_lived_s"] = res.wall.Seconds()
+	im.Hist("own-mesh-scenario")
+	im.Extra["wall_s:"+res.label] = res.wall.Seconds()
 }
